@@ -217,6 +217,9 @@ func runCase(c *CaseJ, note func(qi int, what string), all bool) []Violation {
 	}
 	var out []Violation
 	for i, q := range c.Queries {
+		if !l.s.Alive() {
+			break // the server was replaced after a hanging query: the remaining queries are not judged
+		}
 		if m := l.checkQuery(q, func(w string) { note(i, w) }); m != "" {
 			out = append(out, Violation{Query: q, Msg: fmt.Sprintf("%s [start=%d end=%d step=%d]: %s", q.Expr, c.Data.Base+q.Start, c.Data.Base+q.End, q.Step, m)})
 			if !all {
